@@ -60,7 +60,12 @@ def run():
     ctx = oblig.Ctx()
     prog = ctx.lib
     W = lambda n: prog.method("Walk", n)
-    eng = oblig.engine(prog, unroll=1)
+    # helper functions of walk.rs are inlined (only the visit_* protocol functions and the environment stay calls) and the
+    # Option / Result combinators execute their closures, so the tables do not depend on how the code is factored
+    import optsum
+    WALK_LEAVES = r"Walk::(visit_path|visit_entry|visit_file|visit_link|visit_dir|run|same_fs|resolve_link|log_warn|sorted_entries|absolute)$|IgnoreStack::|Entry::|PathSelector::|Path::"
+    winl = oblig.module_inliner(prog, "walk.rs", WALK_LEAVES)
+    eng = oblig.engine(prog, unroll=1, inline=winl, extra=optsum.SUMMARIES)
     level, depth = U64("level"), U64("self*.depth")
     hidden, follow, report_l = B("self*.hidden"), B("self*.follow_links"), B("self*.report_links")
     no_ignore, one_fs = B("self*.no_ignore"), B("self*.one_fs")
@@ -183,19 +188,17 @@ def run():
 
     def path_table(p):
         md = retbool(p, r"PathSelector::matches_dir$", "free_matches_dir")
-        fe = called(p, r"for_each$")
-        if not fe:
-            return z3.Not(md)
-        clo = [a for a in fe[0].args if isinstance(a, Agg) and "closure" in a.ty]
-        if not clo:
-            raise Inconclusive("for_each closure not found")
-        sub, qs = oblig.run_closure(prog, clo[0], p, eng=eng)
-        conj = [md]
-        for q in qs:
-            v = called(q, r"Walk::visit_entry$")
-            if len(v) != 1:
-                return z3.BoolVal(False)
-            conj.append(z3.Implies(z3.And(*q.pc) if q.pc else z3.BoolVal(True), arg_int(v[0], 4) == level))
+        fp = called(p, r"Entry::from_path$")
+        ve = called(p, r"Walk::visit_entry$")
+        if not fp:
+            return z3.And(z3.Not(md), z3.BoolVal(not ve))
+        nm = mirsym.sanitize(fp[0].ret.name) if isinstance(fp[0].ret, Lazy) else None
+        if nm is None or len(ve) > 1:
+            return z3.BoolVal(False)
+        ok = z3.BitVec(nm + "#d", 64) == 0
+        conj = [md, z3.BoolVal(bool(ve)) == ok]
+        for v in ve:
+            conj.append(arg_int(v, 4) == level)
         return z3.And(*conj)
     finish(oblig.check_paths(eng, vpp, "visit_path: pruned only by matches_dir; entry visited at the same level", path_table,
                              fns(), key="visit_path:table"), "path")
